@@ -982,6 +982,10 @@ func apiCheckFunctions(t *testing.T) {
 		calls = append(calls, "aggfail:"+apiSnapshot(p))
 		return nil, fmt.Errorf("x")
 	})
+	cfg.SetAggregateFunction("list", func(p []interface{}) (interface{}, error) {
+		calls = append(calls, "list:"+apiSnapshot(p))
+		return append([]interface{}{}, p...), nil
+	})
 	docs := []string{`{"a":[[1,2],[3]],"b":[4,5],"c":{"x":1,"y":2},"d":7}`, `{"a":null,"b":1,"c":"x","d":false}`, `[null,0,"",false,[],{}]`, `[1,2,3]`, `[[1],[2,3]]`, `{"a":1,"b":2}`, `{"a":[[1,2]]}`, `[[1,2]]`, `{"c":{"x":[7,8]}}`, `{"p":{"q":{"r":{"s":[[1,2],[3]]}}}}`}
 	prefixes := []string{`$.a`, `$.a.*`, `$.a[0]`, `$.a[*]`, `$.b`, `$.b[*]`, `$.c`, `$.c.*`, `$..x`, `$.*`, `$[*]`, `$[0]`, `$`, `$['a','b']`, `$[0,1]`, `$[?(@)]`, `$.d`, `$.zz`,
 		// the leading `$` omitted
@@ -1127,6 +1131,31 @@ func apiCheckFunctions(t *testing.T) {
 				if bad {
 					t.Errorf("REPRODUCED: %q on %s: chained filter functions: calls %v result %s err %v; the path before selects %s", pre+".inc().inc()", ds, calls, apiSnapshot(res), err, apiSnapshot(base))
 					return
+				}
+			}
+			// chained aggregates: `pre.list()` is a single value (the array `list` returned), so the second aggregate is handed
+			// that array's elements - whatever the steps before the first aggregate were; a filter function in between hands it on unchanged
+			if berr == nil {
+				single := !strings.ContainsAny(pre, "*?,:") && !strings.Contains(pre, "..")
+				arg := base
+				if arr, ok := base[0].([]interface{}); ok && single && len(base) == 1 {
+					arg = arr
+				}
+				for _, ch := range []struct {
+					tail string
+					want []string
+				}{
+					{".list().agg()", []string{"list:" + apiSnapshot(arg), "agg:" + apiSnapshot(arg)}},
+					{".list().rec().agg()", []string{"list:" + apiSnapshot(arg), "rec:" + apiSnapshot(arg), "agg:" + apiSnapshot(arg)}},
+					{".list().list().agg()", []string{"list:" + apiSnapshot(arg), "list:" + apiSnapshot(arg), "agg:" + apiSnapshot(arg)}},
+				} {
+					calls = nil
+					apiCount()
+					res, err = Retrieve(pre+ch.tail, apiDecode(ds), cfg)
+					if err != nil || strings.Join(calls, "|") != strings.Join(ch.want, "|") || len(res) != 1 || res[0] != float64(len(arg)) {
+						t.Errorf("REPRODUCED: %q on %s: chained aggregates: calls %v result %s err %v; expected the calls %v", pre+ch.tail, ds, calls, apiSnapshot(res), err, ch.want)
+						return
+					}
 				}
 			}
 			// all functions failing => ErrorFunctionFailed
